@@ -151,7 +151,7 @@ Lemma flush_cur_inv c final extra m s e s' :
 Proof.
   intros HCap HS (fs & p & HI) HC H. rewrite HC in HI.
   assert (HB : blen (m_buf m) + blen extra < 2^63).
-  { assert (X : blen (m_buf m) <= cap c) by (apply (i_cm _ _ _ _ _ _ HI); reflexivity).
+  { assert (X : blen (m_buf m) <= N.max 1 (cap c)) by (apply (i_cm _ _ _ _ _ _ HI); reflexivity).
     unfold capok, small in *. lia. }
   destruct (flush_frame_inv fa c final extra m s fs p HI HB e s' H) as (R1 & R2 & R3 & R4 & R5).
   split; [exact R1|]. split; [|split; [exact R2|split; [exact R5|split]]].
@@ -164,7 +164,7 @@ Qed.
 
 (* appending to the buffer of the current writer *)
 Lemma buf_append_inv c s m d :
-  CInv c s -> cur s = Some m -> blen (m_buf m) + blen d <= cap c ->
+  CInv c s -> cur s = Some m -> blen (m_buf m) + blen d <= N.max 1 (cap c) ->
   let s' := s <| cur := Some (m <| m_buf := m_buf m ++ d |>) |> in
   CInv c s' /\ crel s s' /\ fl s' = fl s.
 Proof.
@@ -216,7 +216,7 @@ Proof.
       * destruct (IH pp s1 e s' F1 H) as (G1&G2&G3&G4).
         split; [exact G1|split; [eapply crel_trans; eassumption|split; [congruence|exact G4]]].
     + set (n := N.min (cap c - blen (m_buf m)) (blen pp)) in *.
-      assert (HB : blen (m_buf m) + blen (takeN n pp) <= cap c).
+      assert (HB : blen (m_buf m) + blen (takeN n pp) <= N.max 1 (cap c)).
       { rewrite blen_takeN. subst n. lia. }
       destruct (buf_append_inv c s m (takeN n pp) HC EC HB) as (B1&B2&B3).
       cbv zeta in B1, B2, B3.
@@ -247,6 +247,16 @@ Proof.
   eapply copy_loop_inv; eassumption.
 Qed.
 
+(* the lookahead byte of ReadFrom lands in the buffer a non-final flush has just emptied *)
+Lemma put_byte_inv c b s :
+  CInv c s -> (forall m', cur s = Some m' -> m_buf m' = [] /\ @None werror = None) ->
+  CInv c (put_byte b s) /\ crel s (put_byte b s) /\ fl (put_byte b s) = fl s.
+Proof.
+  intros HC HE. unfold put_byte. destruct (cur s) as [m|] eqn:EC.
+  - apply (buf_append_inv c s m [b] HC EC). destruct (HE m eq_refl) as [-> _]. cbn. lia.
+  - split; [exact HC|split; [apply crel_refl|reflexivity]].
+Qed.
+
 Lemma read_from_inv c : capok c -> forall fuel chunks s e s',
   CInv c s -> read_from fuel c chunks s = (e, s') ->
   CInv c s' /\ crel s s' /\ fl s' = fl s /\ (e <> None -> cur s' = None).
@@ -258,18 +268,32 @@ Proof.
     2:{ inversion H; subst e s'.
         split; [exact HC|split; [apply crel_refl|split; [reflexivity|intros _; exact EC]]]. }
     destruct (cap c - blen (m_buf m) =? 0) eqn:ER.
-    + destruct (flush_frame c false [] m s) as [e1 s1] eqn:EF.
+    + destruct chunks as [|[|b ch'] rest].
+      { inversion H; subst e s'.
+        split; [exact HC|split; [apply crel_refl|split; [reflexivity|intros X; contradiction]]]. }
+      { destruct rest as [|r1 rest1]; [|exact (IH _ _ e s' HC H)].
+        inversion H; subst e s'.
+        split; [exact HC|split; [apply crel_refl|split; [reflexivity|intros X; contradiction]]]. }
+      destruct (flush_frame c false [] m s) as [e1 s1] eqn:EF.
       assert (Hs : small []) by (unfold small; cbn; lia).
       destruct (flush_cur_inv c false [] m s e1 s1 HCap Hs HC EC EF) as (F1&F2&F3&F4&F5&F6).
       destruct e1 as [e1|].
-      * inversion H; subst e s'. split; [exact F1|split; [exact F2|split; [exact F3|intros _; apply F4; discriminate]]].
-      * destruct (IH chunks s1 e s' F1 H) as (G1&G2&G3&G4).
-        split; [exact G1|split; [eapply crel_trans; eassumption|split; [congruence|exact G4]]].
+      { inversion H; subst e s'. split; [exact F1|split; [exact F2|split; [exact F3|intros _; apply F4; discriminate]]]. }
+      destruct (put_byte_inv c b s1 F1 F6) as (P1&P2&P3).
+      assert (Q2 : crel s (put_byte b s1)) by (eapply crel_trans; eassumption).
+      assert (Q3 : fl (put_byte b s1) = fl s) by congruence.
+      destruct ch' as [|b1 ch1]; [destruct rest as [|r1 rest1]|].
+      { inversion H; subst e s'.
+        split; [exact P1|split; [exact Q2|split; [exact Q3|intros X; contradiction]]]. }
+      { destruct (IH _ _ e s' P1 H) as (G1&G2&G3&G4).
+        split; [exact G1|split; [eapply crel_trans; eassumption|split; [congruence|exact G4]]]. }
+      destruct (IH _ _ e s' P1 H) as (G1&G2&G3&G4).
+      split; [exact G1|split; [eapply crel_trans; eassumption|split; [congruence|exact G4]]].
     + destruct chunks as [|ch rest].
       { inversion H; subst e s'.
         split; [exact HC|split; [apply crel_refl|split; [reflexivity|intros X; contradiction]]]. }
       set (n := N.min (cap c - blen (m_buf m)) (blen ch)) in *.
-      assert (HB : blen (m_buf m) + blen (takeN n ch) <= cap c).
+      assert (HB : blen (m_buf m) + blen (takeN n ch) <= N.max 1 (cap c)).
       { rewrite blen_takeN. subst n. lia. }
       destruct (buf_append_inv c s m (takeN n ch) HC EC HB) as (B1&B2&B3).
       cbv zeta in B1, B2, B3.
